@@ -1,4 +1,5 @@
 """C07 — masks and indexing follow Python sequence semantics and compose."""
+import math
 import operator
 
 from hypothesis import strategies as st
@@ -239,6 +240,11 @@ def compare_case(draw, tier="quick"):
         if ka == "int":
             a = [draw(st.sampled_from([-1, -2, 0, 1, 3, 7])) if x is not None else None for x in a]
         b = [twins.get(x, x) if (f and x is not None and x in twins) else x for x, f in zip(a, flips)]
+    if ka == kb == "float" and a and draw(st.integers(0, 2)) == 0:
+        # nan: equal element objects on both sides (v == v.copy()) must still compare by Python's rules (nan != nan)
+        nan = math.nan
+        a = [nan if (x is not None and f) else x for x, f in zip(a, draw(st.lists(st.booleans(), min_size=n, max_size=n)))]
+        b = list(a)
     scalar = draw(V.SCALARS[kb])
     return {"ka": ka, "kb": kb, "a": a, "b": b, "scalar": scalar, "wrong_len": draw(st.integers(1, 2))}
 
